@@ -23,15 +23,21 @@ type C15Case struct {
 	Changes []int `json:"changes,omitempty"` // key numbers: present -> delete or update, absent -> insert
 	// ColdCache: the two trees are opened with fresh (cold) node caches of their own instead of none
 	ColdCache bool `json:"cold_cache,omitempty"`
+	// WriterCache: the versions were written through a node cache; one side of the diff is opened through
+	// that (warm) cache, the other side without any cache (e.g. another process)
+	WriterCache bool `json:"writer_cache,omitempty"`
 }
 
 func genC15(t *rapid.T, tier string) C15Case {
 	c := C15Case{Pair: genPair(t, tier, core.GenOpts{
-		Caches: []string{"none"}, Vals: []string{core.VInt},
+		Caches: []string{"none", "none", "big", "arc"}, Vals: []string{core.VInt},
 		Keys: []string{core.KLK, core.KLK, core.KInt, core.KUint64, core.KString, core.KBytes, core.KStruct},
 	}, true)}
 	c.Pair.OldRes, c.Pair.NewRes = "reloaded", "reloaded"
 	c.ColdCache = rapid.IntRange(0, 3).Draw(t, "coldcache") == 0
+	if c.Pair.Cfg.Cache != "none" {
+		c.WriterCache, c.ColdCache = true, false
+	}
 	return c
 }
 
@@ -61,7 +67,7 @@ func enumC15(tier string, shard, nshards int, yield func(C15Case) bool) (bool, s
 				for j := 0; j <= r%5; j++ {
 					ch = append(ch, (r*7919+j*104729+n/3)%(n+n/2))
 				}
-				if !yield(C15Case{Big: n, BigBF: bf, Changes: ch, ColdCache: r%3 == 2}) {
+				if !yield(C15Case{Big: n, BigBF: bf, Changes: ch, ColdCache: r%3 == 2, WriterCache: r%3 == 1}) {
 					return false, ""
 				}
 			}
@@ -156,6 +162,9 @@ func runC15(c C15Case, o *run.Obs) error {
 	desc := ""
 	if c.Big > 0 {
 		cfg := core.Config{BF: c.BigBF, Format: ref.FormatBinary, Key: core.KInt, Val: core.VInt, Cache: "none", Marshaler: "json"}
+		if c.WriterCache {
+			cfg.Cache = "big"
+		}
 		w = core.NewWorld(cfg)
 		// a private pool of consecutive ints (the world's pool is only used for key materialisation)
 		w.Pool = make([]interface{}, c.Big+c.Big/2+1)
@@ -177,7 +186,7 @@ func runC15(c C15Case, o *run.Obs) error {
 			o.Label("aborted:base-failure")
 			return nil
 		}
-		t2, err := w.Load(oldSR, nil, nil, false)
+		t2, err := w.Load(oldSR, nil, w.Cache, false)
 		if err != nil {
 			o.Label("aborted:base-failure")
 			return nil
@@ -228,6 +237,9 @@ func runC15(c C15Case, o *run.Obs) error {
 	open2 := func() (*core.Tree, *core.Tree, bool) {
 		if c.ColdCache {
 			cOld, cNew = mast.NewNodeCache(1024), mast.NewNodeCache(1024)
+		}
+		if c.WriterCache {
+			cOld, cNew = nil, wNew.Cache // the new side through the writer's warm cache, the old side decoded from the store
 		}
 		a, err1 := w.Load(oldSR, nil, cOld, false)
 		b, err2 := wNew.Load(newSR, nil, cNew, false)
@@ -341,8 +353,8 @@ func runC15(c C15Case, o *run.Obs) error {
 			o.Label("aborted:diff-failed(C06/C07)")
 			return nil
 		}
-		if !c.ColdCache {
-			// without a cache every interface can be measured in the same run
+		if !c.ColdCache || c.WriterCache {
+			// without a cold cache every interface can be measured in the same run
 			for j := 0; j < 3; j++ {
 				if err := judge(names[j], sets[j]); err != nil {
 					return err
